@@ -598,21 +598,32 @@ func c14NoAllocAfterClose(p *P, r *R) {
 		}
 		for _, ci := range findInstrs(f, p.mCall("(*bufferManager).allocShmBuffer", "(*bufferManager).allocShmBuffers")) {
 			n++
-			ok := p.guardedByCall(ci, guard, false)
-			if !ok {
-				// or a direct test of the stream's state
-				isState := func(v ssa.Value) bool {
-					c, okc := v.(*ssa.Call)
-					return okc && p.calleeName(&c.Call) == "(*Stream).getStreamState"
-				}
-				closedV, _ := p.pkgConstInt("streamClosed")
-				isClosed := func(v ssa.Value) bool { k, okk := constInt(v); return okk && k == closedV }
-				for _, fct := range factsAt(ci.Block()) {
-					if relOn(fct.Cond, fct.Truth, isState, isClosed) == "!=" {
-						ok = true
-					}
-				}
+			// the call is reachable only over an edge on which the stream is known not to be closed (helper says so, or a
+			// direct state test) or on which the buffer has no stream at all (unit tests): no path avoids all such edges
+			isState := func(v ssa.Value) bool {
+				c, okc := v.(*ssa.Call)
+				return okc && p.calleeName(&c.Call) == "(*Stream).getStreamState"
 			}
+			closedV, _ := p.pkgConstInt("streamClosed")
+			isClosed := func(v ssa.Value) bool { k, okk := constInt(v); return okk && k == closedV }
+			isStreamFld := func(v ssa.Value) bool { return isLoadOf(v, "linkedBuffer.stream") }
+			goodEdge := func(b *ssa.BasicBlock, i int) bool {
+				ifi := blockIf(b)
+				if ifi == nil {
+					return false
+				}
+				if c, pol := condCall(ifi.Cond); c != nil && guard.F(c) && (i == 0) != pol {
+					return true // streamClosed() == false
+				}
+				if relOn(ifi.Cond, i == 0, isState, isClosed) == "!=" {
+					return true
+				}
+				if relOn(ifi.Cond, i == 0, isStreamFld, isNilConst) == "==" {
+					return true
+				}
+				return false
+			}
+			ok := !p.reachesWithout(Point{f.Blocks[0], -1}, ci, nil, func(b *ssa.BasicBlock, i int) bool { return !goodEdge(b, i) })
 			r.ob("R14.9", p.fname(f)+": the shared-memory allocator is entered only while the buffer's stream is not closed", p.ipos(ci), ok, true,
 				"after the session's teardown the region is unmapped: an allocation for a closed stream faults the whole process")
 		}
